@@ -188,7 +188,7 @@ fn one(cs: &mut Cases, label: &str, ir: &Value, cfg: &Cfg, cli: &Result<PathBuf,
     let mut trees: Vec<(String, Result<BTreeMap<String, Vec<u8>>, String>)> = vec![];
     for run in ["lib1", "lib2", "lib3", "lib4"] {
         let out = root.join(run);
-        let o = Command::new(&me).arg("gen").arg(&ir_path).arg(&out).args(cfg.lib_args(run == "lib3", run == "lib4")).current_dir(&root).env("TMPDIR", &tmp).output();
+        let o = Command::new(&me).arg("gen").arg(&ir_path).arg(&out).args(cfg.lib_args(run == "lib3", run == "lib4")).current_dir(&root).env("TMPDIR", &tmp).envs(if run == "lib2" { vec![("CARGO_PKG_VERSION", "0.3.1"), ("CARGO_PKG_NAME", "someone-elses-crate"), ("CARGO_MANIFEST_DIR", "/nonexistent")] } else { vec![] }).output();
         trees.push((run.to_string(), match o {
             Ok(o) if o.status.success() => {
                 let mut t = BTreeMap::new();
